@@ -39,7 +39,7 @@ MODELLED_NOT_VERIFIED = [
     "C12: Node.extract_subtree is modelled on the shared rose-tree type without a node filter (filters belong to C08); "
     "the constructor with another namespace receives the label-matched taxon mapping from the harness (require_taxon belongs to C10/C11)",
     "C12: the shallow routes (shallowMembers: TreeList.__copy__ / CharacterMatrix.__copy__; shallowNs: TaxonNamespace(ns)) are modelled "
-    "and compared per case, but no theorem is stated about them beyond what holds of cpFields/cpItems; the instance the route "
+    "and compared per case; only shallowMembers has a (partial) frame theorem, nothing is proved about shallowNs; the instance the route "
     "constructs (`cls(label=self.label, taxon_namespace=self.taxon_namespace)`) is built by the harness with the same constructor call "
     "and handed to the model; the constructor's own `__dict__` order is not modelled",
     "C12: the interpreter recursion limit (deep caterpillars raise RecursionError: known finding) is not modelled",
@@ -58,16 +58,23 @@ EXPLANATION = ("Theorems about the fuelled heap model of Annotable.__deepcopy__ 
                "_scoped), copy_disjoint / copy_shares_only_preseeded / deep_copy_shares_nothing, frame_interleaved_history (any "
                "interleaving of later source-side and copy-side overwrites and allocations: each side ends as if the other side's "
                "writes had not happened), bound_annotation_follows (in the FINAL state the copy of an attribute-bound annotation is "
-               "bound to a memo-image of the source's owner and to the same attribute), frame_source_history, frame_source_write / "
+               "bound to a memo-image of the source's owner and to the same attribute), bound_annotation_follows_owner (… to THE copy of "
+               "the owner, whether the traversal visits the owner before or after the annotation: forward- and backward-bound "
+               "owners alike), route_memo_functional (the memo preseed builds from a route that lists each source object once is a "
+               "function and holds every .existing entry), route_shares_existing (positive sharing for the driver's copyRoute), "
+               "shallow_members_frame_partial (TreeList / CharacterMatrix __copy__: the result is a new object, no old object other "
+               "than a bound annotation is written - members, namespace, source untouched - memo targets are old objects mapped to "
+               "themselves or new objects, new objects refer to old or new ones), frame_source_history, frame_source_write / "
                "frame_copy_write, fuel_mono / fuel_result_unique, route_spec / route_no_write / route_shares_only_preseeded, "
                "extract_leaves, extract_suppresses, extract_nosup_attrs, extract_sup_labels, extract_sup_pathsums. Tie A (regenerated "
                "from the source on every run): planFields_bridge (which attributes the three __deepcopy__ loops skip, _taxa first, "
                "annotations last), cloneDepth_bridge (clone(0|1|2) dispatch, TypeError otherwise), retarget_bridge (the re-targeting "
                "test and the memo registration of deep_copy_annotations_from, the self-seeding of the scoped routes), absorb_bridge "
                "(the length merge of extract_subtree and the default of suppress_unifurcations). PARTIAL: retarget_step_partial "
-               "(single step; the final-state form is bound_annotation_follows), copy_independent_partial (bundle). NOT PROVED "
-               "(correspondence and oracle only): the shallow routes; the label match of the other-namespace pre-seeding (computed by "
-               "the harness); functionality of the memo the route's own pre-seeding produces (route_iso states it relative to s0.m). "
+               "(single step; the final-state form is bound_annotation_follows), copy_independent_partial (bundle), "
+               "shallow_members_frame_partial (missing: that an OLD bound annotation is not re-targeted, and the final content of the "
+               "new member container). NOT PROVED (correspondence and oracle only): shallowNs (TaxonNamespace(ns)) and the equality "
+               "half of the shallow routes; the label match of the other-namespace pre-seeding (computed by the harness). "
                "frame_copy_history and the one-step corollaries carry no content beyond copy_no_write*.")
 
 # ---------------------------------------------------------------------------------------------------------------------
